@@ -34,7 +34,7 @@
 (* With Collect = TRUE unmatched lines are recorded (with a signature) and *)
 (* the walk goes on, the machine following the specification.              *)
 (***************************************************************************)
-EXTENDS TlsAuth, Json, IOUtils, TLC
+EXTENDS TlsAuth, Integers, Json, IOUtils, TLC
 
 CONSTANT Collect
 
@@ -137,6 +137,8 @@ SigStep(r) ==
   ELSE IF r.op = "connect"
   THEN IF ~(r.client_hs = "ok" /\ r.server_hs = "ok" /\ RoundTrips(r)) THEN "handshake_fails_after_reload"
        ELSE IF ~ShowsIdentity(r, live) THEN "new_handshake_sees_stale_identity"
+       ELSE IF r.mtls /\ ~r.srv_saw_client_cert THEN "server_did_not_authenticate_client"
+       ELSE IF ~r.mtls /\ r.srv_saw_client_cert THEN "server_asks_client_cert_without_ca"
        ELSE "other:connect"
   ELSE IF r.conn \notin DOMAIN conns THEN "other:malformed_line"
   ELSE IF r.client_hs = "gone" THEN "other:use_of_failed_connection"
@@ -144,10 +146,17 @@ SigStep(r) ==
        ELSE IF ~ShowsIdentity(r, Sees(r.conn)) THEN "established_connection_changes_identity"
        ELSE "other:use"
 
-\* the machine follows the specification whatever was observed
+\* The machine follows the specification whatever was observed, with one exception: a handshake that was
+\* served with an identity other than `live` (an unmatched line, recorded above) pins the connection to the
+\* identity it actually saw, so that later uses of it are judged by "keeps seeing the identity it handshook
+\* with" and one defect does not cascade into a second signature.
+ObsVer(r) == IF r.seen_serial - 100 \in 0 .. identityVersion THEN r.seen_serial - 100 ELSE live
 Advance(r) ==
   CASE r.ev = "script" -> identityVersion' = 0 /\ live' = 0 /\ conns' = <<>>
-    [] r.ev = "step" /\ r.op = "connect" -> Connect
+    [] r.ev = "step" /\ r.op = "connect" ->
+         IF ObsVer(r) = live THEN Connect
+         ELSE /\ conns' = Append(conns, [born |-> identityVersion, ver |-> ObsVer(r), cfg |-> ObsVer(r), alive |-> TRUE])
+              /\ UNCHANGED <<identityVersion, live>>
     [] r.ev = "step" /\ r.op = "reload" -> Reload
     [] r.ev = "step" /\ r.op = "use" /\ r.conn \in DOMAIN conns -> Use(r.conn)
     [] OTHER -> UNCHANGED mvars
@@ -169,7 +178,7 @@ ExpectView(r) ==
          THEN [outcome |-> Expected(CaseOf(r)), observed |-> Obs(r), serverAsksForCert |-> ServerAsksForCert(CaseOf(r)),
                serverCN |-> ServerCN(CaseOf(r))]
          ELSE [error |-> "malformed line"]
-    [] r.ev = "step" /\ r.op = "connect" -> [handshake |-> "ok", identity |-> live, cn |-> IdentCN(live)]
+    [] r.ev = "step" /\ r.op = "connect" -> [handshake |-> "ok", identity |-> live, cn |-> IdentCN(live), serverSeesClientCert |-> r.mtls]
     [] r.ev = "step" /\ r.op = "reload" -> [res |-> "ok", to |-> identityVersion + 1]
     [] r.ev = "step" /\ r.op = "use" /\ r.conn \in DOMAIN conns ->
          [roundtrip |-> "ok", identity |-> conns[r.conn].ver, cn |-> IdentCN(conns[r.conn].ver)]
